@@ -519,3 +519,81 @@ Proof.
         apply get_none_app. exact Hn. }
       rewrite G in K. exact K.
 Qed.
+
+Lemma mkdir_p_chain : forall e m w n cwd,
+  e ++ m <> [] -> Forall plain (e ++ m) -> dirs_to w e -> (m <> [] -> get w (e ++ [hd [] m]) = None) ->
+  mkdir_p (w, n) cwd (A (e ++ m)) = ok (mkchain w e m, (n + N.of_nat (length m))%N).
+Proof.
+  intros e m w n cwd Hne Hp Hd Hn. unfold mkdir_p. simpl fst.
+  destruct m as [|c m'].
+  - rewrite app_nil_r in *. rewrite isdir_plain_dir by auto. simpl. unfold ok. f_equal. f_equal. lia.
+  - rewrite isdir_plain_missing; auto; [|apply Hn; discriminate].
+    apply makedirs_chain; auto; [discriminate|apply Hn; discriminate|].
+    unfold A. simpl length. rewrite app_length. simpl. lia.
+Qed.
+
+Lemma dirname_A : forall d c, d <> [] -> Forall plain d -> dirname (A (d ++ [c])) = A d.
+Proof.
+  intros d c Hne Hp. unfold dirname. change (A (d ++ [c])) with (A d ++ [c]). rewrite split_last_app.
+  rewrite strip_trailing_A by auto. destruct d; [congruence|reflexivity].
+Qed.
+
+Definition linked (w : node) (e m : path) (c : str) (src : str) : node :=
+  upd (mkchain w e m) ((e ++ m) ++ [c]) (Some (Lnk src)).
+
+Lemma make_link_plain : forall e m c src w n cwd,
+  e ++ m <> [] -> Forall plain (e ++ m) -> plain c -> dirs_to w e ->
+  (m <> [] -> get w (e ++ [hd [] m]) = None) -> get w ((e ++ m) ++ [c]) = None ->
+  make_link (w, n) cwd src (A ((e ++ m) ++ [c])) =
+  ok (linked w e m c src, N.succ (n + N.of_nat (length m))).
+Proof.
+  intros e m c src w n cwd Hne Hp Hc Hd Hn Hg. unfold make_link.
+  rewrite dirname_A by auto. rewrite mkdir_p_chain by auto. unfold ok at 1.
+  unfold symlink. rewrite create_plain; auto.
+  - simpl fst.
+    assert (G : get (mkchain w e m) ((e ++ m) ++ [c]) = None).
+    { apply omap_none.
+      pose proof (kind_mkchain m w e Hd Hn ((e ++ m) ++ [c])) as K.
+      assert (P : is_prefix ((e ++ m) ++ [c]) (e ++ m) = false).
+      { destruct (is_prefix ((e ++ m) ++ [c]) (e ++ m)) eqn:P; [|reflexivity].
+        apply is_prefix_length in P. rewrite app_length in P. simpl in P. lia. }
+      rewrite P in K. rewrite Bool.andb_false_l in K. unfold kind_at in K. rewrite Hg in K. exact K. }
+    rewrite G. reflexivity.
+  - simpl fst. apply dirs_to_mkchain; auto.
+Qed.
+
+Lemma kind_linked : forall e m c src w,
+  dirs_to w e -> (m <> [] -> get w (e ++ [hd [] m]) = None) -> get w ((e ++ m) ++ [c]) = None ->
+  forall r, kind_at (linked w e m c src) r =
+            if path_eqb r ((e ++ m) ++ [c]) then Some (KLnk src)
+            else if is_prefix r (e ++ m) then Some KDir
+            else kind_at w r.
+Proof.
+  intros e m c src w Hd Hn Hg r. unfold linked.
+  destruct (kind_dir_get (mkchain w e m) (e ++ m)) as [es Ge].
+  { apply (dirs_to_mkchain w e m Hd Hn (e ++ m) []). rewrite app_nil_r. reflexivity. }
+  pose proof (kind_upd (e ++ m) (mkchain w e m) c (Some (Lnk src)) r es Ge) as K. cbv beta iota in K.
+  etransitivity; [exact K|]. clear K.
+  pose proof (kind_mkchain m w e Hd Hn r) as K2.
+  destruct (path_eqb r ((e ++ m) ++ [c])) eqn:E.
+  - apply path_eqb_eq in E. subst r. rewrite is_prefix_refl, skipn_all. reflexivity.
+  - destruct (is_prefix ((e ++ m) ++ [c]) r) eqn:P.
+    + apply is_prefix_spec in P. destruct P as [u Eu]. subst r.
+      rewrite skipn_app_len. destruct u as [|x u].
+      * rewrite app_nil_r, path_eqb_refl in E. discriminate.
+      * assert (is_prefix (((e ++ m) ++ [c]) ++ x :: u) (e ++ m) = false) as ->.
+        { destruct (is_prefix (((e ++ m) ++ [c]) ++ x :: u) (e ++ m)) eqn:P; [|reflexivity].
+          apply is_prefix_length in P. rewrite !app_length in P. simpl in P. lia. }
+        unfold kind_at. rewrite (get_none_app w ((e ++ m) ++ [c]) (x :: u) Hg). reflexivity.
+    + rewrite K2. destruct (is_prefix r (e ++ m)) eqn:P2; simpl.
+      * destruct (Nat.ltb (length e) (length r)) eqn:L; [reflexivity|].
+        apply Nat.ltb_ge in L. apply is_prefix_spec in P2. destruct P2 as [u Eu].
+        assert (exists r', e = r ++ r') as [r' Er].
+        { exists (skipn (length r) e).
+          assert (firstn (length r) (e ++ m) = firstn (length r) (r ++ u)) by (rewrite Eu; reflexivity).
+          rewrite firstn_app in H. replace (length r - length e) with 0 in H by lia. simpl in H. rewrite app_nil_r in H.
+          rewrite firstn_app, firstn_all, Nat.sub_diag in H. simpl in H. rewrite app_nil_r in H.
+          rewrite <- H at 1. symmetry. apply firstn_skipn. }
+        apply (Hd r r' Er).
+      * reflexivity.
+Qed.
